@@ -228,7 +228,9 @@ func runMerkle(s *Session, ops []merkleOp) {
 		case "sector-roots":
 			roots := hashes(op.n, op.sectorSeed)
 			proof := rhp4.BuildSectorRootsProof(roots, op.start, op.end)
-			if want := refRangeProof(roots, op.start, op.end); fmt.Sprint(proof) != fmt.Sprint(want) {
+			if want := refRangeProof(roots, op.start, op.end); rhp2.RangeProofSize(uint64(op.n), op.start, op.end) != uint64(len(want)) {
+				prebad[i] = fmt.Sprintf("RangeProofSize(n=%d,[%d,%d)) = %d, the range proof by definition has %d hashes", op.n, op.start, op.end, rhp2.RangeProofSize(uint64(op.n), op.start, op.end), len(want))
+			} else if fmt.Sprint(proof) != fmt.Sprint(want) {
 				// (the renter would read the wrong number of hashes: reported where it is built)
 				prebad[i] = fmt.Sprintf("BuildSectorRootsProof(n=%d,[%d,%d)) has %d hashes and differs from the range proof by definition (%d hashes)", op.n, op.start, op.end, len(proof), len(want))
 			}
